@@ -199,6 +199,11 @@ impl CertificateRepository {
         requires accepted_before(&c)
         ensures r is Ok ==> r->Ok_0 == c && certificate_stored(self, c)
     { unimplemented!() }
+    /// get_latest_certificates(n): the n most recent certificates, most recent first
+    #[verifier::external_body]
+    pub fn get_latest_certificates(&self, n: usize) -> (r: Result<Vec<Certificate>, StdError>)
+        ensures r is Ok && n >= 1 ==> (r->Ok_0@.len() >= 1) == (latest_certificate(self) is Some), r is Ok && n >= 1 && r->Ok_0@.len() >= 1 ==> r->Ok_0@[0] == latest_certificate(self)->Some_0
+    { unimplemented!() }
     /// `get_latest_certificates::<Certificate>(1).await?.first()`
     #[verifier::external_body]
     pub fn get_latest_certificate(&self) -> (r: Result<Option<Certificate>, StdError>) ensures r is Ok ==> r->Ok_0 == latest_certificate(self) { unimplemented!() }
